@@ -24,7 +24,7 @@ from sim import world as Wd
 ID = 'C09'
 LEVEL = 'exploration'
 ENGINE = 'history'
-BUDGET = {'quick': 700, 'thorough': 60000}
+BUDGET = {'quick': 2000, 'thorough': 60000}
 WALL = {'quick': 50, 'thorough': 1500}
 RULE = ('histories of 4-14 simulated commands (put, restore, rm, empty, foreign additions, clock jumps) over '
         '1-4 volumes; after every step trash-list is run and compared with the model bag; non-trivial = the '
